@@ -26,6 +26,7 @@ KEY_UAF_PAX = "uaf:pax_header:sparse-map-then-numbytes"
 KEY_NODIAG_TAR = "nodiag:tar2sqfs:iterator-error"
 KEY_NODIAG_XATTR = "nodiag:gensquashfs:xattr-map"
 KEY_NODIAG_SORT = "nodiag:gensquashfs:sort-file-trailing"
+KEY_GLOB_NOPACKDIR = "ubsan:glob:null-basepath"
 
 # --------------------------------------------------------------------------------------------- tar mutation
 
@@ -40,7 +41,10 @@ STRS = [b"..", b"../x", b"/abs/path", b"a//b/./c/", b"", b".", b"x" * 100, b"\xf
 TYPES = b"0123456LKxgSDMNVX\0 7"
 PAXKEYS = [b"size", b"path", b"linkpath", b"uid", b"gid", b"mtime", b"GNU.sparse.size", b"GNU.sparse.realsize", b"GNU.sparse.name",
            b"GNU.sparse.major", b"GNU.sparse.minor", b"GNU.sparse.map", b"GNU.sparse.offset", b"GNU.sparse.numbytes",
-           b"GNU.sparse.numblocks", b"SCHILY.xattr.user.x", b"LIBARCHIVE.xattr.user.x", b"SCHILY.xattr", b"comment", b"atime"]
+           b"GNU.sparse.numblocks", b"SCHILY.xattr.user.x", b"LIBARCHIVE.xattr.user.x", b"SCHILY.xattr", b"comment", b"atime",
+           # escapes inside xattr keys (GNU tar: %25 = '%', %3D = '='; libarchive: any %XX)
+           b"SCHILY.xattr.user.a%25b", b"SCHILY.xattr.user.%3Dx%3d", b"SCHILY.xattr.%2", b"SCHILY.xattr.%25%3D%", b"SCHILY.xattr.user.%253D",
+           b"LIBARCHIVE.xattr.user.%3Dy%41%2", b"SCHILY.xattr.", b"LIBARCHIVE.xattr."]
 
 
 def chksum(block):
@@ -265,6 +269,64 @@ def tar_sparse_inconsistent(rng):
     return out + b"\0" * 1024, markers
 
 
+def pax_rec(k, v):
+    body = k + b"=" + v + b"\n"
+    n = len(body) + 2
+    while len(str(n)) + 1 + len(body) != n:
+        n = len(str(n)) + 1 + len(body)
+    return str(n).encode() + b" " + body
+
+
+def pax_rec_of_size(total, key=b"comment"):
+    """one well-formed PAX record that is exactly `total` bytes long"""
+    n = total - len(str(total)) - 1 - len(key) - 1 - 1
+    if n < 0:
+        return None
+    r = str(total).encode() + b" " + key + b"=" + b"c" * n + b"\n"
+    return r if len(r) == total else None
+
+
+def ext_record(typeflag, payload, declared=None):
+    size = len(payload) if declared is None else declared
+    return mk_header(b"././@LongLink" if typeflag in b"LK" else b"pax", size, typeflag) + payload + b"\0" * ((-len(payload)) % 512)
+
+
+def tar_size_gate(rng, limits, kind=None, delta=None):
+    """an 'L' / 'K' / 'x' extension record whose declared size is around the implementation limit, *with all its data
+    present*, followed by the member it describes and a marker member.  Returns (data, must_reject)"""
+    kind = kind or rng.choice(["L", "K", "x", "x"])
+    lim = limits[kind]
+    S = max(1, lim + (rng.choice([-512, -1, 0, 0, 1, 1, 2, 511, 512, 513, 4096, lim, 3 * lim]) if delta is None else delta))
+    if kind == "x":
+        payload = pax_rec_of_size(S) or pax_rec(b"comment", b"c")
+        S = len(payload)
+        rec = ext_record(b"x", payload)
+        member = mk_header(b"member", 3) + b"abc".ljust(512, b"\0")
+    elif kind == "L":
+        comp = b"n" * rng.choice([1, 20, 200])
+        path = (b"/".join([comp] * (S // (len(comp) + 1) + 2)))[:S - 1].rstrip(b"/") .ljust(S - 1, b"z")
+        rec = ext_record(b"L", path + b"\0")
+        member = mk_header(b"short", 3) + b"abc".ljust(512, b"\0")
+    else:
+        target = (b"t" * 100 + b"/") * (S // 101 + 1)
+        rec = ext_record(b"K", target[:S - 1] + b"\0")
+        member = mk_header(b"lnk", 0, b"2", b"short-target")
+    data = rec + member + mk_header(b"zz-marker", 0) + b"\0" * 1024
+    return data, S > lim
+
+
+def tar_deep(rng, n, kind):
+    """one member whose name has `n` components (2n-1 bytes, so up to 32768 components fit a GNU long name / PAX path)"""
+    path = b"/".join([b"a"] * n)
+    hdr = mk_header(b"d", 0, b"5") if kind == "d" else mk_header(b"f", 3)
+    body = b"" if kind == "d" else b"abc".ljust(512, b"\0")
+    if rng.random() < 0.5:
+        pre = ext_record(b"L", path + b"\0")
+    else:
+        pre = ext_record(b"x", pax_rec(b"path", path))
+    return pre + hdr + body + b"\0" * 1024
+
+
 def compress_variants(data):
     out = {"gz": gzip.compress(data, mtime=0), "xz": lzma.compress(data), "bz2": bz2.compress(data)}
     return out
@@ -368,6 +430,81 @@ def mutate_text(rng, text):
     return out
 
 
+PACK_KEYWORD_LINES = {
+    # keyword: (line without the optional trailing argument, the optional argument or None)
+    "dir": ("dir /kd 0755 0 0", None),
+    "slink": ("slink /ks 0777 0 0 target", None),
+    "link": ("link /kl 0644 0 0 /kf", None),
+    "nod": ("nod /kn 0600 0 0 c 1 2", None),
+    "pipe": ("pipe /kp 0644 0 0", None),
+    "sock": ("sock /kso 0644 0 0", None),
+    "file": ("file /input/a.txt 0644 0 0", "input/passwd"),
+    "glob": ("glob /kg 0755 0 0 -type f", "input"),
+    "glob2": ("glob /kg2 * * *", "input/sub"),
+    "glob3": ("glob /kg3 0755 1 2 -name \"*.txt\" --", "."),
+    # options that want an argument, as the last token of the line
+    "glob-name": ("glob /kg4 0755 0 0 -name", "\"*.txt\" input"),
+    "glob-type": ("glob /kg5 0755 0 0 -type", "f input"),
+    "glob-path": ("glob /kg6 0755 0 0 -type d -path", "\"*/sub\" input"),
+    "glob-dd": ("glob /kg7 0755 0 0 --", "input"),
+    "glob-bad": ("glob /kg8 0755 0 0 -bogus", "input"),
+}
+GEN_MODES = ("D", "nodir", "slashdir", "D-rel")
+
+
+def pack_keyword_matrix():
+    """every pack-file keyword x every way of naming the pack file (with -D, without -D in the current directory so that no
+    pack directory exists at all, without -D below a sub directory, -D with a relative pack file) x with / without the
+    optional location argument"""
+    jobs = []
+    for kw, (line, opt) in PACK_KEYWORD_LINES.items():
+        for mode in GEN_MODES:
+            for with_opt in ((False, True) if opt is not None else (False,)):
+                text = "file /kf 0644 0 0 input/a.txt\n" + line + ((" " + opt) if with_opt else "") + "\n"
+                jobs.append(("kw:%s:%s:%s" % (kw, mode, "loc" if with_opt else "noloc"), text, mode))
+    return jobs
+
+
+def big_text(rng, kind, B):
+    """a *valid* pack / sort / xattr file larger than the istream buffer whose interesting line straddles the boundary;
+    returns (text, names that must be in the image)"""
+    pad_to = rng.choice([B, B, 2 * B]) - rng.randrange(0, 24)
+    if kind == "pack":
+        head = "dir /big 0755 0 0\n"
+        line = "file /big/straddle%d 0644 0 0 input/passwd" % rng.randrange(1000)
+        tail = "\nfile /big/after 0644 0 0 input/a.txt\n"
+        want = [line.split()[1].lstrip("/"), "big/after"]
+    elif kind == "sort":
+        head = "# sort\n"
+        line = "%d [dont_compress] etc/passwd" % rng.randrange(-100, 100)
+        tail = "\n5 etc/motd\n"
+        want = []
+    else:
+        head = "# file: etc/passwd\n"
+        line = "user.straddle=\"value %d\"" % rng.randrange(1000)
+        tail = "\n# file: etc/motd\nuser.after=0x4142\n"
+        want = []
+    nl = rng.choice(["\n", "\r\n"])
+    fill = pad_to - len(head) - len(nl)
+    style = rng.random()
+    if style < 0.4:
+        filler = "#" + "c" * max(0, fill - 1)                                # one comment line as long as the buffer
+    elif style < 0.7:
+        filler = ("# comment comment comment" + nl) * (fill // 27)           # many short lines
+        filler = filler[:max(0, fill)].rstrip("\r\n")
+    else:
+        filler = " " * max(0, fill)                                          # a blank line to skip
+    text = head + filler + nl + line + rng.choice(["", " ", "  "]) + tail        # (a lone CR would become part of the last field)
+    if rng.random() < 0.3:
+        text += "#" + "z" * (3 * B)                                          # and a line of three buffers at the end, unterminated
+    return text.replace("\n", nl) if nl == "\r\n" and rng.random() < 0.5 else text, want
+
+
+def pack_deep(n, kind="dir"):
+    path = "/" + "/".join(["a"] * n)
+    return ("dir %s 0755 0 0\n" % path) if kind == "dir" else ("file %s 0644 0 0 input/a.txt\n" % path)
+
+
 def pack_hardlink_graph(rng):
     n = rng.randint(1, 5)
     names = ["h%d" % i for i in range(n)]
@@ -400,8 +537,39 @@ class Tools:
         (self.packdir / "input" / "sub" / "b.txt").write_bytes(b"\0" * 5000)
         (self.packdir / "etc").mkdir(exist_ok=True)
         (self.packdir / "etc" / "motd").write_bytes(b"motd\n")
+        (self.packdir / "etc" / "passwd").write_bytes(b"root:x:0:0:root:/root:/bin/sh\n")
+        # a directory worth globbing: a few hundred entries, nesting, long and odd names, links, a fifo
+        many = self.packdir / "many"
+        many.mkdir(exist_ok=True)
+        for i in range(300):
+            (many / ("f%03d%s" % (i, ".txt" if i % 3 == 0 else ""))).write_bytes(b"x" * (i % 7))
+        (many / ("n" * 255)).write_bytes(b"long")
+        (many / "sp ace \"q\" \\b").write_bytes(b"odd")
+        (many / "-dash").write_bytes(b"")
+        (many / "*star?[x]").write_bytes(b"")
+        d = many
+        for i in range(40):
+            d = d / ("d%d" % i)
+            d.mkdir(exist_ok=True)
+            (d / "leaf.txt").write_bytes(b"leaf")
+        # hard-linked files in a directory of their own: globbing them below a prefix fails today (the link target the scan
+        # reports lacks the prefix: "Resolving hard link …: No such file or directory"), which is a diagnosed refusal, not a
+        # C07 matter; kept away from the inputs that are expected to be accepted
+        links = self.packdir / "links"
+        (links / "sub").mkdir(parents=True, exist_ok=True)
+        (links / "one").write_bytes(b"1")
+        try:
+            os.symlink("f000.txt", str(many / "sym"))
+            os.symlink("nowhere", str(many / "dangling"))
+            os.mkfifo(str(many / "fifo"))
+            os.link(str(links / "one"), str(links / "two"))
+            os.link(str(links / "one"), str(links / "sub" / "three"))
+        except OSError:
+            pass
         self.n = 0
         self.slow = 0
+        self.lf_refusals = 0
+        self.unz = None
 
     def jobdir(self):
         self.n += 1
@@ -436,9 +604,16 @@ class Tools:
                 if rc2 != 0 and b"a line feed cannot be represented in the listing" in e2:
                     # since /repo 4b35342 `rdsquashfs -d` refuses to *print* a name or target containing a line feed (the
                     # listing format cannot carry one; C16). That happens after the whole tree was read successfully, so the
-                    # image is readable; the refusal of the listing is not a C07 matter. Counted, not ignored:
-                    self.lf_refusals = getattr(self, "lf_refusals", 0) + 1
+                    # image is readable; the refusal of the listing is not a C07 matter. Counted, not ignored; the image
+                    # still has to pass `rdsquashfs -l /` and the independent validator (harness/unz.c + the executable
+                    # invariant list `sqfsmodel c03 validate`), which does not care whether names are printable:
+                    self.lf_refusals += 1
                     rc2, o2, e2 = self.proc([str(self.rd), "-l", "/", str(out_path)], timeout=TIMEOUT * 6)
+                    if rc2 == 0:
+                        viol = self.validate_image(out_path)
+                        if viol:
+                            bad.append(("exit0-image", "%s exits 0, the image holds a name with a line feed and the independent validator "
+                                        "objects: %s" % (what, "; ".join(viol)[:400])))
                 if rc2 != 0:
                     bad.append(("exit0-image", "%s exits 0 but rdsquashfs -d fails (%s): %s" % (what, rc2, e2[-400:].decode(errors="replace"))))
         else:
@@ -448,7 +623,26 @@ class Tools:
                 bad.append(("failure-diagnostic", "%s exits %s without a diagnostic on stderr" % (what, rc)))
         return bad
 
-    def run_tar(self, data, expect_members=None, timeout=TIMEOUT):
+    def validate_image(self, img):
+        """independent reading of an image: harness/unz.c (own decompression and table walk) + `sqfsmodel c03 validate`
+        (the invariants of format.adoc as an executable list).  Returns the violated invariants."""
+        if self.unz is None:
+            self.unz = self.ctx.cc("unz_c07", ["unz.c"], sanitize=False, libs=["-lz", "-llzma", "-llz4", "-lzstd"])
+        r = vlib.sh([str(self.unz), str(img)], timeout=300)
+        if r.returncode != 0:
+            return ["unz cannot read the image: " + r.stderr[-200:]]
+        desc = r.stdout
+        req = "\n".join(self.ctx.driver(["c03", "blockreq"], desc)) + "\n"
+        rq = Path(str(img) + ".req")
+        rq.write_text(req)
+        r2 = vlib.sh([str(self.unz), "-b", str(rq), str(img)], timeout=300)
+        rq.unlink()
+        if r2.returncode != 0:
+            return ["unz cannot read the data blocks: " + r2.stderr[-200:]]
+        val = self.ctx.driver(["c03", "validate", "4096"], desc + r2.stdout)
+        return [v for v in val if v.startswith("viol ")]
+
+    def run_tar(self, data, expect_members=None, timeout=TIMEOUT, opts=(), must_reject=None):
         d = self.jobdir()
         inp = d / "in.tar"
         inp.write_bytes(data)
@@ -465,10 +659,12 @@ class Tools:
         res["big"] = big
         if not big and rc != "timeout":
             outp = d / "out.sqfs"
-            rc, out, err = self.proc([str(self.t2s), "-q", "-f", str(outp)], stdin_path=inp, timeout=timeout)
+            rc, out, err = self.proc([str(self.t2s), "-q", "-f"] + list(opts) + [str(outp)], stdin_path=inp, timeout=timeout)
             res["rc"] = rc
             res["stderr"] = err[-300:].decode(errors="replace")
-            res["bad"] += self.judge(rc, err, outp, "tar2sqfs", timeout)
+            res["bad"] += self.judge(rc, err, outp, "tar2sqfs" + (" " + " ".join(opts) if opts else ""), timeout)
+            if must_reject and rc == 0:
+                res["bad"].append(("limit-enforced", "tar2sqfs accepts an archive it has to refuse: %s" % must_reject))
             if rc == 0 and expect_members and outp.exists():
                 rc2, o2, _ = self.proc([str(self.rd), "-d", str(outp)])
                 have = o2.decode(errors="replace")
@@ -479,23 +675,58 @@ class Tools:
         shutil.rmtree(d, ignore_errors=True)
         return res
 
-    def run_gen(self, pack=None, sort=None, xattr=None, timeout=TIMEOUT):
+    def run_gen(self, pack=None, sort=None, xattr=None, timeout=TIMEOUT, mode="D", must_accept=None):
+        """mode: how the inputs are named on the command line
+             D         -D <packdir> -F <abs pack file>                      (the pack directory is given)
+             D-rel     -D <packdir> -F pack.txt, cwd = job directory
+             nodir     -F pack.txt, cwd = a copy of the pack directory: *no* pack directory (opt->packdir == NULL)
+             slashdir  -F sub/pack.txt, cwd = job directory: the pack directory is derived from the file name
+             dironly   -D <packdir> and no pack file at all (the directory is scanned); sort / xattr files still apply"""
         d = self.jobdir()
         outp = d / "out.sqfs"
-        cmd = [str(self.gen), "-q", "-f", "-D", str(self.packdir)]
+        enc = lambda t: t.encode("latin-1", "replace") if isinstance(t, str) else t
         if pack is None:
             pack = PACK_SEED
-        (d / "pack.txt").write_bytes(pack.encode("latin-1", "replace") if isinstance(pack, str) else pack)
-        cmd += ["-F", str(d / "pack.txt")]
+        cwd = None
+        cmd = [str(self.gen), "-q", "-f"]
+        if mode == "D":
+            (d / "pack.txt").write_bytes(enc(pack))
+            cmd += ["-D", str(self.packdir), "-F", str(d / "pack.txt")]
+        elif mode == "D-rel":
+            cwd = d
+            (d / "pack.txt").write_bytes(enc(pack))
+            cmd += ["-D", str(self.packdir), "-F", "pack.txt"]
+        elif mode == "nodir":
+            cwd = d / "cwd"
+            shutil.copytree(str(self.packdir), str(cwd), symlinks=True, ignore=shutil.ignore_patterns("many", "links"))
+            (cwd / "pack.txt").write_bytes(enc(pack))
+            cmd += ["-F", "pack.txt"]
+        elif mode == "slashdir":
+            cwd = d
+            shutil.copytree(str(self.packdir), str(d / "sub"), symlinks=True, ignore=shutil.ignore_patterns("many", "links"))
+            (d / "sub" / "pack.txt").write_bytes(enc(pack))
+            cmd += ["-F", "sub/pack.txt"]
+        elif mode == "dironly":
+            cmd += ["-D", str(self.packdir)]
+        else:
+            raise vlib.CheckFailure("run_gen: unknown mode %r" % mode)
         if sort is not None:
-            (d / "sort.txt").write_bytes(sort.encode("latin-1", "replace"))
+            (d / "sort.txt").write_bytes(enc(sort))
             cmd += ["-S", str(d / "sort.txt")]
         if xattr is not None:
-            (d / "xattr.txt").write_bytes(xattr.encode("latin-1", "replace"))
+            (d / "xattr.txt").write_bytes(enc(xattr))
             cmd += ["-A", str(d / "xattr.txt")]
         cmd.append(str(outp))
-        rc, out, err = self.proc(cmd, timeout=timeout)
-        res = {"rc": rc, "stderr": err[-300:].decode(errors="replace"), "bad": self.judge(rc, err, outp, "gensquashfs", timeout)}
+        rc, out, err = self.proc(cmd, cwd=str(cwd) if cwd else None, timeout=timeout)
+        res = {"rc": rc, "stderr": err[-300:].decode(errors="replace"), "bad": self.judge(rc, err, outp, "gensquashfs[%s]" % mode, timeout)}
+        if must_accept is not None and rc not in (0, "timeout") and not res["bad"]:
+            res["bad"].append(("valid-input-accepted", "gensquashfs[%s] refuses a valid input (exit %s): %s" % (mode, rc, res["stderr"][-200:])))
+        if must_accept and rc == 0 and outp.exists():
+            rc2, o2, _ = self.proc([str(self.rd), "-d", str(outp)])
+            have = o2.decode(errors="replace")
+            missing = [m for m in must_accept if (" /%s " % m) not in have and (" %s " % m) not in have]
+            if missing:
+                res["bad"].append(("valid-input-accepted", "gensquashfs[%s] exits 0 but %s is not in the image" % (mode, missing[0])))
         shutil.rmtree(d, ignore_errors=True)
         return res
 
